@@ -785,12 +785,6 @@ func (dc *docCase) checkPrincipal(ti *treeInfo, i int, refs []boxRef, add func(c
 		// which box carries the element is not prescribed here
 		return
 	}
-	if nd.x == xRunning && nd.d.tablePart() {
-		// GCPM does not say what the display of a running element computes to; a table part taken
-		// out of the flow (kept as it is, or blockified as CSS 2.1 §9.7 does for the other
-		// out-of-flow boxes) has no prescribed box type
-		return
-	}
 	var want bo.BoxType
 	if nd.replaced {
 		want = bo.InlineReplacedT
